@@ -4,7 +4,7 @@ from models import cfg as M
 from sim.core import FAILED
 
 ID = "C14"
-CASES = {"quick": 1500, "thorough": 25000}
+CASES = {"quick": 3000, "thorough": 25000}
 RULE = ("seeded grammars pruned to useful symbols by the reference (nullable variables, nullable non-empty "
         "bodies, common prefixes, left recursion; an LL(1)-biased generator gives ~half LL(1) grammars) x "
         "value-hash schedule x PYTHONHASHSEED (FIRST/FOLLOW worklists are seeded in set order); FIRST, FOLLOW "
